@@ -225,6 +225,7 @@ func (g *Gen) Setup() map[string]string {
 			}
 		case route < 6: // through the flag (set after WithDimension, as flag.Parse would)
 			reg.Default = other
+			reg.Name = NewFlagName(reg.Name) // the process-wide flag set must not know the name yet
 			fv := Spell(g.R, names[sel])
 			if g.OOD && g.R.IntN(4) == 0 {
 				fv = []string{"", "nope", names[sel] + "x"}[g.R.IntN(3)]
